@@ -135,7 +135,7 @@ theorem Run_eq (sx : Gen.server.server) (fs : List Bytes) (pings : List (Option 
   simp only [StateT.run, env_Open, bind, StateT.bind, Except.bind, hm, lift_ok, Option.isNone_none, Bool.not_true,
     Bool.false_eq_true, if_false]
   rw [loop1_eq none sx fs fuel _ _ (List.length_replicate ..) rfl hf]
-  simp [pure, StateT.pure, Except.pure]
+  simp [pure, StateT.pure, Except.pure, runEnv, bind, StateT.bind, Except.bind]
 
 theorem Run_open_fails (sx : Gen.server.server) (st : RunState) (fuel : Nat) (e : String) :
     (Gen.server.server_Run (runEnv (some e)) sx fuel).run st = .ok (some e, st) := by
